@@ -142,7 +142,7 @@ fn rereads(graph: &mut Graph, changes: &[Och], options: &MarkdownOptions) -> Str
                 Ok(d) => Ok(format!("({}, {})", gopt(d.metadata.clone().map(|m| gstr(&m))), dump::dblocks(&d.blocks))),
                 Err(e) => Err(panic_msg(e)),
             };
-            let key = Key::from_file_name(k);
+            let key = Key::name(k);
             let tables = match catch_unwind(AssertUnwindSafe(|| { graph.update_key(key.clone(), text); })) {
                 Ok(()) => tables_of(graph, &key, options),
                 Err(_) => vec![],
@@ -168,7 +168,7 @@ fn first_diff_line(a: &str, b: &str) -> usize {
 
 fn is_self_ref(graph: &Graph, key: &str, id: u64) -> bool {
     catch_unwind(AssertUnwindSafe(|| {
-        graph.collect(&Key::from_file_name(key)).find(id).and_then(|t| t.node.reference_key()).map(|k| k.to_string() == key).unwrap_or(false)
+        graph.collect(&Key::name(key)).find(id).and_then(|t| t.node.reference_key()).map(|k| k.to_string() == key).unwrap_or(false)
     }))
     .unwrap_or(false)
 }
@@ -231,7 +231,7 @@ pub fn execute(v: &Value, kinds: &[usize]) -> String {
     let mut per_kind = [0usize; 8];
     let cap = v["cap"].as_u64().unwrap_or(4) as usize; // resolved actions per kind and library
     for (name, text) in &sorted {
-        let key = Key::from_file_name(name).to_string();
+        let key = Key::name(name).to_string();
         for line in 0..line_count(text) {
             let offers: Vec<_> = (1..=7).map(|k| offer(&srv, &key, line, k)).collect();
             lines_out.push(gapp("LO", &[gstr(&key), gn(line as u64), glist(&offers.iter().map(goffer).collect::<Vec<_>>())]));
@@ -267,7 +267,7 @@ pub fn execute(v: &Value, kinds: &[usize]) -> String {
                 if let (Some(k2), Ok(l)) = (inverse, &ch) {
                     let new_text = l.iter().rev().find_map(|c| match c { Och::Update(k, t) if *k == key => Some(t.clone()), _ => None });
                     if let Some(new_text) = new_text {
-                        let original = catch_unwind(AssertUnwindSafe(|| graph.to_markdown(&Key::from_file_name(&key)))).unwrap_or_default();
+                        let original = catch_unwind(AssertUnwindSafe(|| graph.to_markdown(&Key::name(&key)))).unwrap_or_default();
                         let line2 = first_diff_line(&original, &new_text);
                         if let Ok(mut s2) = catch_unwind(AssertUnwindSafe(|| server(&notes, ext, seq))) {
                             let mut ok = true;
